@@ -1,4 +1,5 @@
 import ZipVerif.Lemmas.ShortWrite
+import ZipVerif.Lemmas.EntryBridgeCrypto
 /-
 C09 — Results do not depend on how I/O is chunked: the WRITER STATE MACHINE over a short-writing sink.
 
@@ -153,5 +154,18 @@ example :
       demoWhole.1.map cls = [.ok, .ok, .ok, .ok, .ok, .ok, .ok] ∧ demoWhole.2.2.calls < demoShort.2.2.calls ∧
       demoWhole.2.2.buf.length = 272 := by
   decide +kernel
+
+/-- The C15 cipher as the writer's `zcEncrypt`. -/
+def wextZc : WExt := ⟨fun _ _ b => b, fun pw b => (ZipCrypto.encryptAll (ZipCrypto.derive pw) b).1⟩
+
+/-- The ZipCrypto archive of C09's reader-side example (`Model.zcEntry`) is what the writer model produces for
+`start_file("a", encrypt_with "pw"); write([1,2,3,4,5]); finish()` - over the whole-write sink and over a sink
+accepting 1, 2, 3, 1, … bytes per call. -/
+theorem writer_produces_zcEntry :
+    (runCalls wextZc [.startFile [0x61] { opts .stored none with encryptWith := some [0x70, 0x77] },
+      .write [1, 2, 3, 4, 5], .finish] WState.init none (Dev.ofBytes [])).2.2.buf = Model.zcEntry ∧
+    (GW.runCallsS (fun b => b.length) wextZc [.startFile [0x61] { opts .stored none with encryptWith := some [0x70, 0x77] },
+      .write [1, 2, 3, 4, 5], .finish] WState.init (fun k => 1 + k % 3) (Dev.ofBytes [])).2.2.buf = Model.zcEntry := by
+  refine ⟨by decide +kernel, by decide +kernel⟩
 
 end ZipVerif.Props.C09
